@@ -47,7 +47,7 @@ Theorem C06_int_bounds : forall z,
 Proof. exact int_bounds_all. Qed.
 (* every value of the type: its text parses back to the same value ... *)
 Theorem C06_int_roundtrip : forall T z, int_space T z = true -> parse_int (sdk_range T) (print_int z) = Ok z.
-Proof. intros T z H. apply int_roundtrip. rewrite sdk_range_space. exact H. Qed.
+Proof. exact int_roundtrip_T. Qed.
 (* ... and is a valid literal of exactly that type *)
 Theorem C06_int_print_valid : forall T z, int_space T z = true -> valid_xsd_int T (print_int z) = true.
 Proof. exact int_print_valid. Qed.
@@ -69,7 +69,7 @@ Proof. vm_compute. repeat split. Qed.
 
 (* ---- boolean *)
 Theorem C06_boolean : forall b, parse_bool (print_bool b) = Ok b /\ valid_xsd_boolean (print_bool b) = true.
-Proof. intros b. split; [exact (bool_roundtrip b)|exact (bool_print_valid b)]. Qed.
+Proof. intros b. exact (conj (bool_roundtrip b) (bool_print_valid b)). Qed.
 Theorem C06_boolean_reject_literal : forall s, valid_xsd_boolean s = false -> parse_bool s = Err ValueError.
 Proof. exact bool_reject_literal. Qed.
 
@@ -183,6 +183,8 @@ Theorem C06_hex_reject_literal : forall s, valid_xsd_hexbinary s = false -> pars
 Proof. exact hex_reject_literal. Qed.
 Theorem C06_base64_roundtrip : forall b, parse_base64 (print_base64 b) = Ok b /\ valid_xsd_base64 (print_base64 b) = true.
 Proof. exact base64_roundtrip. Qed.
+Theorem C06_base64_reject_literal : forall s, valid_xsd_base64 s = false -> parse_base64 s = Err ValueError.
+Proof. exact base64_reject_literal. Qed.
 Example C06_binary_examples :
   print_base64 (L "abc") = L "YWJj" /\ print_base64 (L "hi") = L "aGk=" /\ parse_base64 (L "aGl=") = Err ValueError /\
   parse_base64 (L "!!aGk=") = Err ValueError /\ parse_base64 (L " a G k = ") = Ok (L "hi") /\
@@ -200,6 +202,8 @@ Proof. exact dur_roundtrip. Qed.
 Theorem C06_duration_mixed_signs : forall v x y, fixed v -> In x (fields v) -> In y (fields v) -> x < 0 -> 0 < y ->
   print_duration v = Err ValueError.
 Proof. exact dur_mixed_rejected. Qed.
+Theorem C06_duration_reject_literal : forall s, valid_xsd_duration s = false -> parse_duration s = Err ValueError.
+Proof. exact dur_reject_literal. Qed.
 Example C06_duration_examples :
   print_duration (mkDur 0 1347 0 0 0 0 0) = Ok (L "P112Y3M") /\
   print_duration (mkDur 0 0 0 0 0 (-1) (-500000)) = Ok (L "-PT1.5S") /\
@@ -239,6 +243,9 @@ Theorem C06_float_roundtrip :
   (forall f, py_float (translate_float (py_repr f)) = Some f) ->
   forall v, parse_float F py_float (print_float F py_repr v) = Ok v /\ valid_xsd_float (print_float F py_repr v) = true.
 Proof. exact float_roundtrip. Qed.
+(* a literal outside the lexical space of xs:float/xs:double never reaches float(): ValueError *)
+Theorem C06_float_reject_literal : forall s, valid_xsd_float s = false -> parse_float_class s = Err ValueError.
+Proof. exact float_reject_literal. Qed.
 Example C06_float_examples :
   parse_float_class (L "nan") = Err ValueError /\ parse_float_class (L "infinity") = Err ValueError /\
   parse_float_class (L "1_0.5") = Err ValueError /\ parse_float_class (L "NaN") = Ok 1 /\
